@@ -19,13 +19,13 @@ OUT = os.path.join(ROOT, "seeded")
 def main():
     os.makedirs(OUT, exist_ok=True)
     rows = []
-    for d in sorted(glob.glob("/tmp/seed-C*/m*")) + sorted(glob.glob("/tmp/seed2-C*/m*")):
+    for d in sorted(glob.glob("/tmp/seed-C*/m*")) + sorted(glob.glob("/tmp/seed2-C*/m*")) + sorted(glob.glob("/tmp/seed3-C*/m*")):
         vf = os.path.join(d, "verify.json")
         if not os.path.exists(vf) or not os.path.exists(os.path.join(d, "patch.diff")):
             continue
         v = json.load(open(vf))
         prop = v["property"]
-        sid = "%s-%s%s" % (prop, "r2" if "/seed2-" in d else "", os.path.basename(d))
+        sid = "%s-%s%s" % (prop, "r2" if "/seed2-" in d else "r3" if "/seed3-" in d else "", os.path.basename(d))
         confirmed = bool(v.get("patch_applies") and v.get("demo_passes_without_patch") and v.get("demo_fails_with_patch") and v.get("suite_passes_with_patch"))
         dst = os.path.join(OUT, sid)
         if not confirmed:
